@@ -76,8 +76,18 @@ def _p1_function(f: Func, res: RuleResult, orig_vars: Set[str], extra_flags: Lis
         if isinstance(n, ast.Assign) and len(n.targets) == 1 and isinstance(n.targets[0], ast.Name) \
                 and norm(n.value) in temporal_tests:
             alias[n.targets[0].id] = True
+    # flags that say "the result is a count" (counting = 'count' in reduce_func_name): a count of temporal values is an integer
+    # and must NOT be given the temporal dtype, so paths on which such a flag holds carry no restore obligation
+    count_flags = {n.targets[0].id for n in walk_no_nested(f.node) if isinstance(n, ast.Assign) and len(n.targets) == 1
+                   and isinstance(n.targets[0], ast.Name) and isinstance(n.value, ast.Compare) and len(n.value.ops) == 1
+                   and isinstance(n.value.ops[0], (ast.In, ast.Eq)) and isinstance(n.value.left, ast.Constant)
+                   and isinstance(n.value.left.value, str) and "count" in n.value.left.value}
+    count_flags |= {n.targets[0].id for n in walk_no_nested(f.node) if isinstance(n, ast.Assign) and len(n.targets) == 1
+                    and isinstance(n.targets[0], ast.Name) and isinstance(n.value, ast.Compare) and len(n.value.ops) == 1
+                    and isinstance(n.value.ops[0], ast.Eq) and isinstance(n.value.comparators[0], ast.Constant)
+                    and n.value.comparators[0].value == "count"}
     # no recognised temporal test: every returning path is examined (a function that never restores is a violation)
-    paths = enumerate_paths(f.node.body)
+    paths = enumerate_paths(f.node.body, split_bool=bool(count_flags))
     n_paths = 0
     for flags0 in (extra_flags or [{}]):
         flags = dict(alias)
@@ -87,6 +97,11 @@ def _p1_function(f: Func, res: RuleResult, orig_vars: Set[str], extra_flags: Lis
                 continue
             if not consistent(p, flags, temporal_tests):
                 continue
+            if count_flags:
+                from .paths import infeasible as _infeasible
+                if _infeasible(p):
+                    continue            # the counting flag decided both ways
+            count_path = bool(count_flags) and any(isinstance(t, ast.Name) and t.id in count_flags and pol is True for t, pol in p.conds)
             if orig_vars and not any(isinstance(n, ast.Name) and isinstance(n.ctx, ast.Store) and n.id in orig_vars
                                      for st in p.stmts for n in ast.walk(st)):
                 continue            # nothing was cast on this path (it leaves before the cast)
@@ -106,6 +121,13 @@ def _p1_function(f: Func, res: RuleResult, orig_vars: Set[str], extra_flags: Lis
                     if isinstance(n, ast.Call) and isinstance(n.func, ast.Name) and n.func.id in conv_bound:
                         restored = st
             construct = f"{f.qualname}: temporal path {p.describe()[:110]}"
+            if count_path:
+                # the result on this path is a count: it must NOT be given the temporal dtype of the values
+                if restored is not None:
+                    res.bad(f, restored, f"{f.qualname}: {norm(restored)[:60]} on a counting path",
+                            "the result of a counting operation is cast to the temporal dtype of the values: count(<datetime values>) comes "
+                            "back as timestamps a few units after the epoch instead of integers", path=p.describe())
+                continue
             if restored is not None:
                 res.ok(f, p.exit_node, construct, f"restored by {norm(restored)[:60]}")
             else:
